@@ -316,3 +316,57 @@ def shares_memory(a, b):
     except Exception:
         pass
     return False
+
+
+# ------------------------------------------ snapshot-level close comparison
+
+
+def _blocks_of_snap(s):
+    if s[0] in ("A", "F"):
+        return s[5]
+    if s[0] == "V":
+        return s[1]
+    return None
+
+
+def snap_close(s1, s2, rtol=1e-12, atol=1e-13):
+    """Compare two snapshots: everything except block data must be equal
+    (including block order, dtypes and shapes); block data within tolerance.
+    Returns None if equal else a reason string."""
+    if s1 == s2:
+        return None
+    if not (isinstance(s1, tuple) and isinstance(s2, tuple)) or s1[:1] != s2[:1]:
+        return "kind"
+    k = s1[0]
+    if k == "T":
+        if len(s1) != len(s2):
+            return "tuple length"
+        for i, (a, b) in enumerate(zip(s1[1:], s2[1:])):
+            r = snap_close(a, b, rtol, atol)
+            if r:
+                return f"[{i}] {r}"
+        return None
+    if k == "S":
+        a = np.frombuffer(s1[2], dtype=s1[1])
+        b = np.frombuffer(s2[2], dtype=s2[1])
+        if s1[1] != s2[1]:
+            return f"scalar dtype {s1[1]} vs {s2[1]}"
+        return None if _close(a, b, rtol, atol) else "scalar value"
+    if k in ("A", "F", "V"):
+        b1, b2 = _blocks_of_snap(s1), _blocks_of_snap(s2)
+        rest1 = tuple(x for i, x in enumerate(s1) if x is not b1)
+        rest2 = tuple(x for i, x in enumerate(s2) if x is not b2)
+        if rest1 != rest2:
+            f = diff_field(s1, s2)
+            return f"{f}: {describe_diff(rest1, rest2)}"
+        if [x[0] for x in b1] != [x[0] for x in b2]:
+            return f"sectors/order: {[x[0] for x in b1][:4]} vs {[x[0] for x in b2][:4]}"
+        for (sec, (dt1, sh1, by1)), (_, (dt2, sh2, by2)) in zip(b1, b2):
+            if dt1 != dt2 or sh1 != sh2:
+                return f"block {sec}: {dt1}{sh1} vs {dt2}{sh2}"
+            x = np.frombuffer(by1, dtype=dt1)
+            y = np.frombuffer(by2, dtype=dt2)
+            if not _close(x, y, rtol, atol):
+                return f"values at sector {sec}"
+        return None
+    return None if s1 == s2 else "value"
